@@ -430,6 +430,37 @@ fn qlaws_ev<T: StratNum>(case: &Value, out: &mut Vec<Value>) {
         res.insert("failed".to_string(), json!(failed));
         Some(Value::Object(res))
     } else { None };
+    // ... and on ONE Option<N64> object (missing = None; the not-missing wrapper type NotNone<N64> carries the arithmetic)
+    let oskip_res = if T::NAME == "n64" && case.get("nanpos").is_some() {
+        let mut data: Vec<Option<N64>> = lane.iter().map(|x| Some(n64(x.to_f64().unwrap()))).collect();
+        let mut pos = jints(&case["nanpos"]);
+        pos.sort();
+        for (k, p) in pos.iter().enumerate() { data.insert((*p as usize + k).min(data.len()), None); }
+        let mut st = Strided::new(&data, stride, 1, |_| Some(n64(0.25)));
+        let mut res = serde_json::Map::new();
+        let mut failed: Vec<&str> = Vec::new();
+        for &s in STRATS {
+            let mut vals = Vec::new();
+            for &q in &qv {
+                verif_hooks::set_script(vec![], fb);
+                let r = guarded(|| { let mut v = st.view_mut(); match s {
+                    "lower" => v.quantile_axis_skipnan_mut(Axis(0), n64(q), &Lower),
+                    "higher" => v.quantile_axis_skipnan_mut(Axis(0), n64(q), &Higher),
+                    "nearest" => v.quantile_axis_skipnan_mut(Axis(0), n64(q), &Nearest),
+                    "midpoint" => v.quantile_axis_skipnan_mut(Axis(0), n64(q), &Midpoint),
+                    _ => v.quantile_axis_skipnan_mut(Axis(0), n64(q), &Linear),
+                } });
+                verif_hooks::take_log();
+                match r {
+                    Ok(Ok(x)) if x.iter().next().unwrap().is_some() => vals.push(rank2_of(&rm, &T::from_f64(x.iter().next().unwrap().unwrap().raw()).unwrap())),
+                    _ => { if !failed.contains(&s) { failed.push(s); } }
+                }
+            }
+            res.insert(s.to_string(), json!(vals));
+        }
+        res.insert("failed".to_string(), json!(failed));
+        Value::Object(res)
+    } else { seq_res.clone() };
     let permuted: Vec<T> = perm.iter().map(|&k| lane[k].clone()).collect();
     let perm_res = run(&permuted, &rm);
     // relabelled copy: the r-th smallest distinct raw value becomes relabel[r]
@@ -447,7 +478,7 @@ fn qlaws_ev<T: StratNum>(case: &Value, out: &mut Vec<Value>) {
     };
     let hasskip = skip_res.is_some();
     let skip_res = skip_res.unwrap_or_else(|| seq_res.clone());
-    out.push(json!({"ev": "qlaws", "ty": T::NAME, "n": n, "seq": seq_res, "skip": skip_res, "hasskip": hasskip, "lane": ranks_of(&rm, &lane).iter().map(|r| 2 * r).collect::<Vec<_>>(),
+    out.push(json!({"ev": "qlaws", "ty": T::NAME, "n": n, "seq": seq_res, "skip": skip_res, "oskip": oskip_res, "hasskip": hasskip, "lane": ranks_of(&rm, &lane).iter().map(|r| 2 * r).collect::<Vec<_>>(),
         "qs": qi, "qord": qv.windows(2).all(|w| w[0] <= w[1]), "res": base_res, "perm": perm_res, "rel": rel_res,
         "isfloat": T::NAME == "n64", "wide": wide, "big": bexp > 51, "nomid": case.get("nomid").and_then(|x| x.as_bool()).unwrap_or(false)}));
 }
